@@ -787,6 +787,12 @@ func (l *Loader) mergeResult(fetchItem *FetchItem, res *result, items []*astjson
 		// Multi-entity entry items carry no Fetch (nil) and have no trailing index in their
 		// data path, so the check does not apply to them.
 		if res.multi == nil && isEmptyEntityFetch(fetchItem, response) {
+			// A single entity fetch sends exactly one representation, so only an _entities array with
+			// one (null) element says "this entity is null". Any other length is a count mismatch and is
+			// reported like it is for batch entity fetches.
+			if count := len(response.GetArray("data", "_entities")); !hasErrors && count != 1 && fetchItem.Fetch.FetchKind() == FetchKindEntity {
+				return l.renderErrorsFailedToFetch(fetchItem, res, fmt.Sprintf(invalidBatchItemCount, 1, count))
+			}
 			return nil
 		}
 
